@@ -263,3 +263,32 @@ def r17f(model: Model, rr: RuleResult):
                "silently lacks that glyph", construct="config.load: one-sided comparison of source_names and master_source_names")
     else:
         rr.bad(fi, fi.node, "no check compares the source-name sets of the masters", construct="config.load: masters source sets unchecked")
+
+
+LOSSY_EXTRACTORS = {"findall", "finditer", "search", "sub", "subn", "split_lossy", "translate", "strip_non_numeric"}
+
+
+@RULES.rule("C17", "R17g", "the colour parser converts whole tokens: nothing it cannot read is skipped silently", floor=3)
+def r17g(model: Model, rr: RuleResult):
+    """`float('100%')` raises; `re.findall(number, '100%')` returns ['100'].  A tokeniser that extracts what it recognises and ignores the
+    rest turns unsupported syntax (percentages, units, extra components) into a different colour instead of an error."""
+    fi = model.func("colors", "Color.fromstring")
+    lossy = [c for c in calls_in(fi, nested=True) if callee_tail(c) in LOSSY_EXTRACTORS and not (isinstance(c.func, ast.Attribute) and isinstance(c.func.value, ast.Constant))]
+    for c in lossy:
+        rr.bad(fi, c, f"{short(c, 70)} extracts the parts it recognises and silently skips the rest of the colour string: unsupported forms such as rgb(100%, 0%, 0%) are "
+               f"read as some other colour instead of being rejected", construct=f"Color.fromstring: lossy tokeniser {short(c.func)}")
+    if not lossy:
+        rr.ok("Color.fromstring uses no partial-match extractor (findall/finditer/search/sub)")
+    # rgb(): separated by split, each token converted by float()
+    cfg = cfg_of(fi)
+    conv = [c for c in calls_in(fi, nested=True) if isinstance(c.func, ast.Name) and c.func.id == "float" and len(c.args) == 1]
+    splits = [c for c in calls_in(fi, nested=True) if callee_tail(c) == "split"]
+    if conv and splits:
+        rr.ok("rgb(): tokens come from str.split and go through float(), which rejects anything that is not a number")
+    else:
+        rr.bad(fi, fi.node, "rgb(): components are no longer whole split tokens converted by float()", construct="Color.fromstring: rgb() tokenisation")
+    hexes = [c for c in calls_in(fi, nested=True) if isinstance(c.func, ast.Name) and c.func.id == "int" and len(c.args) == 2 and norm(c.args[1]) == "16"]
+    if len(hexes) >= 3:
+        rr.ok("#hex: every channel goes through int(.., 16), which rejects non-hex digits")
+    else:
+        rr.bad(fi, fi.node, "#hex: channels are no longer converted by int(.., 16)", construct="Color.fromstring: hex conversion")
